@@ -81,6 +81,12 @@ fn leak(s: &str) -> &'static str {
     Box::leak(s.to_string().into_boxed_str())
 }
 
+/// the same FileSpec with the start-time part left UNDECIDED (the documented default: with rotation
+/// the names carry no start time, whatever the order of the builder calls)
+pub fn file_spec_undecided(dir: &Path, sp: &SpecP) -> FileSpec {
+    FileSpec::default().directory(dir).basename(sp.basename.clone()).o_discriminant(sp.discr.clone()).o_suffix(sp.suffix.clone())
+}
+
 pub fn file_spec(dir: &Path, sp: &SpecP) -> FileSpec {
     FileSpec::default()
         .directory(dir)
@@ -261,7 +267,9 @@ pub fn logger(dir: &Path, sp: &SpecP, cfg: &CfgP, mode: Option<WriteMode>, errch
     let mut l = flexi_logger::Logger::with(flexi_logger::LogSpecification::trace());
     let rot = rotation(sp, cfg);
     let wm = mode.unwrap_or(match cfg.cap { None => WriteMode::Direct, Some(c) => WriteMode::BufferDontFlushWith(c) });
-    let to_file = |l: flexi_logger::Logger| if VIA_FW.load(std::sync::atomic::Ordering::SeqCst) { l.log_to_file_and_writer(file_spec(dir, sp), Box::new(NullWriter)) } else { l.log_to_file(file_spec(dir, sp)) };
+    // (with rotation and a non-standard builder order the FileSpec leaves the start-time part undecided)
+    let fspec = || if rot.is_some() && order > 0 { file_spec_undecided(dir, sp) } else { file_spec(dir, sp) };
+    let to_file = |l: flexi_logger::Logger| if VIA_FW.load(std::sync::atomic::Ordering::SeqCst) { l.log_to_file_and_writer(fspec(), Box::new(NullWriter)) } else { l.log_to_file(fspec()) };
     match order {
         1 => {
             // rotation, append and write mode are chosen BEFORE the output
